@@ -345,3 +345,25 @@ package vm
 //@   case OpSlice: ensures[value] ts(1) == res("vm.slice", hs(3), hs(1), hs(2))
 //@   case OpLen: ensures[value] ts(1) == boxed(res("vm.length", hs(1))) && ts(2) == hs(1)
 //@   case OpCast: ensures[value] ts(1) == boxed(res("vm.toInt64", hs(1))) || ts(1) == boxed(res("vm.toFloat64", hs(1))) || len(vm.stack) == head(len(vm.stack))
+//@   define carg(z) := vm.constants[int(vm.bytecode[head(vm.ip)+1]) + 256*int(vm.bytecode[head(vm.ip)+2]) + z]
+//@   define off(z) := int(vm.bytecode[head(vm.ip)+1]) + 256*int(vm.bytecode[head(vm.ip)+2]) + z
+//@   case OpFetch: ensures[value] ts(1) == res("vm.fetch", env, carg(0), false)
+//@   case OpFetchNilSafe: ensures[value] ts(1) == res("vm.fetch", env, carg(0), true)
+//@   case OpProperty: ensures[value] ts(1) == res("vm.fetch", hs(1), carg(0), false)
+//@   case OpPropertyNilSafe: ensures[value] ts(1) == res("vm.fetch", hs(1), carg(0), true)
+//@   case OpContains: ensures[value] ts(1) == boolv(lib("strings.Contains", strof(hs(2)), strof(hs(1))))
+//@   case OpStartsWith: ensures[value] ts(1) == boolv(lib("strings.HasPrefix", strof(hs(2)), strof(hs(1))))
+//@   case OpEndsWith: ensures[value] ts(1) == boolv(lib("strings.HasSuffix", strof(hs(2)), strof(hs(1))))
+//@   case OpJump: ensures[unchanged] len(vm.stack) == head(len(vm.stack))
+//@   case OpJumpIfTrue: ensures[taken] boolof(hs(1)) ==> vm.ip == head(vm.ip) + 3 + off(0)
+//@   case OpJumpIfTrue: ensures[not-taken] !boolof(hs(1)) ==> vm.ip == head(vm.ip) + 3
+//@   case OpJumpIfFalse: ensures[taken] !boolof(hs(1)) ==> vm.ip == head(vm.ip) + 3 + off(0)
+//@   case OpJumpIfFalse: ensures[not-taken] boolof(hs(1)) ==> vm.ip == head(vm.ip) + 3
+//@   case OpStore: ensures[value] vm.scopes[len(vm.scopes)-1][strof(carg(0))] == hs(1)
+//@   case OpLoad: ensures[value] has(vm.scopes[len(vm.scopes)-1], strof(carg(0))) ==> ts(1) == vm.scopes[len(vm.scopes)-1][strof(carg(0))]
+//@   case OpInc: ensures[value] vm.scopes[len(vm.scopes)-1][strof(carg(0))] == intv(intof(head(vm.scopes[len(vm.scopes)-1][strof(carg(0))])) + 1)
+//@   case OpArray: ensures[length] vlen(ts(1)) == intof(hs(1))
+//@   case OpArray: ensures[elements] forall(k, 0, intof(hs(1)), velem(ts(1), k) == head(vm.stack[len(vm.stack) - 1 - intof(hs(1)) + k]))
+//@   loop OpArray invariant[filled] forall(k, i+1, size, array[k] == pre(vm.stack[len(vm.stack) - size + k]))
+//@   case OpRange: ensures[length] vlen(ts(1)) == ite(res("vm.toInt", hs(1)) - res("vm.toInt", hs(2)) + 1 > 0, res("vm.toInt", hs(1)) - res("vm.toInt", hs(2)) + 1, 0)
+//@   case OpRange: ensures[elements] forall(k, 0, vlen(ts(1)), velemint(ts(1), k) == res("vm.toInt", hs(2)) + k)
